@@ -37,7 +37,7 @@ def replay_path_kernel(run, args, key, check):
 
 
 def load(run, args):
-    sb = fw.run_driver(fw.SYM_BIN, ["kernels"] + [str(a) for a in args], run.seed)
+    sb = fw.run_driver(fw.SYM_BIN, ["kernels"] + [str(a) for a in args], run.seed, extra_env={"VERIF_MAX_PATHS": "1500"})
     rb = fw.run_driver(fw.REAL_BIN, ["kernels"] + [str(a) for a in args], run.seed)
     ctx = smt.Ctx()
     nodes = ctx.from_nodes(sb["nodes"])
@@ -477,15 +477,15 @@ def run(run):
     quick = run.tier == "quick"
     logs = [0, 1, 2, 3] if quick else [0, 1, 2, 3, 4, 5]
     fft_checks(run, logs, ["fft", "ifft", "coset_fft", "coset_ifft"])
-    poly_checks(run, 3 if quick else 5)
+    poly_checks(run, 3 if quick else 4)
     batch_inv_checks(run, 3 if quick else 4)
-    closed_forms(run, [1, 2, 3] if quick else [1, 2, 3, 4])
+    closed_forms(run, [1, 2, 3])
     par = [("fft", 12, 4), ("fft", 12, 17), ("coset_fft", 12, 16), ("ifft", 12, 17)] if quick else \
         [(op, lg, t) for op in ("fft", "ifft", "coset_fft", "coset_ifft") for lg in (12, 13) for t in (1, 3, 4, 9, 16, 17)] + \
         [("fft", 14, 17), ("coset_ifft", 14, 5)]
     parallel_fft_checks(run, par)
     run.bounds.append(f"domain sizes 2^{logs}; input lengths n/2, n-1, n (and 1); polynomial lengths <= "
-                      f"{3 if quick else 5}; batch inversion length <= {3 if quick else 4} with every zero pattern; "
+                      f"{3 if quick else 4}; batch inversion length <= {3 if quick else 4} with every zero pattern; "
                       "ALL values of every vector entry / evaluation point")
     run.outside.append("fully symbolic vectors at sizes >= 2^6 (at 2^12..2^14 only a few entries are symbolic); thread "
                        "counts and sizes other than the listed ones; scheduling (C18); inverse transforms of "
